@@ -15,6 +15,8 @@ SPEC_RE = re.compile(r"^(?:(?P<fill>.)?(?P<align>[<>=^]))?(?P<sign>[-+ ])?(?P<z>
 INTS = [0, 1, -1, 7, 10, 255, -255, 1000, 1234567, -1234567, 10 ** 20, -10 ** 30, 2 ** 64, 97, 0x10FFFF, 0x110000, -5, 123456789012345678901234567890]
 FLOATS = [0.0, -0.0, 0.5, 1.0, -1.0, 1234.5678, -1234.5678, 1e-7, 1e16, 1e100, 123456789.123, 0.1, 2.5, 1e-5, 0.0001, 999999.5, 1e15, 12345678901234567.0,
           float("inf"), float("-inf"), float("nan")]
+# NaNs with the sign bit set / with payloads (Python never prints a sign for them unless asked)
+FLOATS += [struct.unpack("<d", struct.pack("<Q", b))[0] for b in (0xFFF8000000000000, 0x7FF8000000000001, 0xFFF0000000000001, 0xFFFFFFFFFFFFFFFF)]
 STRS = ["", "a", "abc", "héllo", "日本語テキスト", "x" * 30, "a b", "𝄞𝄞"]
 
 
